@@ -233,6 +233,11 @@ func refResolve(t tree, component, runType, role, entry string) (path string, st
 // an inclusion of a sibling entry.
 type seg struct {
 	lit, varName, include string
+	// override: util.PrefixedOverride(override, "p") (legacy: the bare PrefixedOverride): the value of
+	// p_<override> if supplied and not blank / "none", else that of <override>, else nothing
+	// (documented in docs/handbook/configuration.md); upper: strings.ToUpper(<upper>)
+	override, upper string
+	legacy          bool
 }
 
 func (s seg) source() string {
@@ -241,6 +246,12 @@ func (s seg) source() string {
 		return "{{ " + s.varName + " }}"
 	case s.include != "":
 		return "{% include \"" + s.include + "\" %}"
+	case s.override != "" && s.legacy:
+		return "{{ PrefixedOverride(\"" + s.override + "\", \"p\") }}"
+	case s.override != "":
+		return "{{ util.PrefixedOverride(\"" + s.override + "\", \"p\") }}"
+	case s.upper != "":
+		return "{{ strings.ToUpper(" + s.upper + ") }}"
 	}
 	return s.lit
 }
@@ -263,6 +274,15 @@ func render(segs []seg, siblings map[string][]seg, vars map[string]string) strin
 			b.WriteString(vars[s.varName])
 		case s.include != "":
 			b.WriteString(render(siblings[s.include], siblings, vars))
+		case s.override != "":
+			blank := func(v string) bool { return v == "none" || strings.TrimSpace(v) == "" }
+			if v, ok := vars["p_"+s.override]; ok && !blank(v) {
+				b.WriteString(v)
+			} else if v, ok := vars[s.override]; ok && !blank(v) {
+				b.WriteString(v)
+			}
+		case s.upper != "":
+			b.WriteString(strings.ToUpper(vars[s.upper]))
 		default:
 			b.WriteString(s.lit)
 		}
